@@ -3,7 +3,7 @@
    Cluster/ClusterProofs.v, Cluster/CallbackProofs.v, the worked instance in Cluster/ClusterExamples.v. *)
 From VT Require Import Manager.ManagerProofs Manager.AckProofs.
 From VT Require Import Cluster.PubSub Cluster.ClusterLemmas Cluster.ClusterProofs Cluster.CallbackProofs
-  Cluster.ClusterExamples.
+  Cluster.ClusterExamples Check.C07Check Check.C07CheckProofs.
 From Coq Require Import Permutation.
 Open Scope N_scope.
 
@@ -116,3 +116,17 @@ Proof.
   exact (proj1 (proj2 (run_imm_refines place ops _ _ _ (R_init place wos) (same_wos_refl _) H))).
 Qed.
 Print Assumptions C07_reachable_related.
+
+(* ---- the checker applied to the implementation's traces ---- *)
+(* the boolean delivery comparison decides "same multiset of (client, packet) at every step", and every model
+   run under immediate consumption passes it *)
+Theorem C07_chk_deliveries_meaning : forall a b,
+  deliveries_okb a b = true <-> Forall2 deliveries_agree a b.
+Proof. exact deliveries_okb_spec. Qed.
+Print Assumptions C07_chk_deliveries_meaning.
+
+Theorem C07_chk_immediate_model : forall (place : str -> nat) wos ops,
+  Forall (wf_op place (cluster_init wos)) ops ->
+  deliveries_okb (snd (run_imm (cluster_init wos) ops)) (snd (run_single single_init ops)) = true.
+Proof. exact chk_immediate_model. Qed.
+Print Assumptions C07_chk_immediate_model.
